@@ -7,6 +7,7 @@ from .elgen import CHAN_POOL, Regs
 
 ID = "C17"
 ALLOWED_AXIOMS = []
+PROPS_FILES = ["C17", "C17b"]     # C17b: contents of makeLinearlyVaryingSequence and repeatAndVarySequence
 RULE = ("base elements of 1-3 blueprint channels, each blueprint [seg, waituntil(T), seg] or plain segments so that a "
         "duration change in front of the wait keeps the element valid; N = 1..4 simultaneous variations (same or "
         "different channels, segments, arguments by name or position, 'duration'), M = 1..6 steps of arbitrary values; "
